@@ -2024,7 +2024,7 @@ static uint32_t compute_default_look_ahead(
     if (config->rate_control_mode == 0 || config->intra_period_length < 0)
         lad = config->enable_tpl_la == 1 ? TPL_LAD : (2 << config->hierarchical_levels)+1;
     else
-        lad = config->intra_period_length;
+        lad = MIN(config->intra_period_length, MAX_LAD);
 
     return lad;
 }
